@@ -7,7 +7,9 @@ pub mod c02;
 pub mod c06;
 pub mod c07;
 pub mod c08;
+pub mod c09;
 pub mod c10;
+pub mod c13;
 pub mod c14;
 pub mod c16;
 pub mod c15;
@@ -28,7 +30,9 @@ pub fn meta(id: &str) -> Option<Meta> {
         "C06" => c06::meta(),
         "C07" => c07::meta(),
         "C08" => c08::meta(),
+        "C09" => c09::meta(),
         "C10" => c10::meta(),
+        "C13" => c13::meta(),
         "C14" => c14::meta(),
         "C15" => c15::meta(),
         "C16" => c16::meta(),
@@ -53,7 +57,9 @@ pub fn run_worker(id: &str, ctx: &Ctx, rep: &mut Report) {
         "C06" => c06::run(ctx, rep),
         "C07" => c07::run(ctx, rep),
         "C08" => c08::run(ctx, rep),
+        "C09" => c09::run(ctx, rep),
         "C10" => c10::run(ctx, rep),
+        "C13" => c13::run(ctx, rep),
         "C14" => c14::run(ctx, rep),
         "C15" => c15::run(ctx, rep),
         "C16" => c16::run(ctx, rep),
@@ -75,6 +81,8 @@ pub fn replay(id: &str, case: &serde_json::Value) -> Result<Option<String>, Stri
         "C01" => c01::replay(case),
         "C02" => c02::replay(case),
         "C06" => c06::replay(case),
+        "C09" => c09::replay(case),
+        "C13" => c13::replay(case),
         "C14" => c14::replay(case),
         "C16" => c16::replay(case),
         _ => Err(format!("engine {id} has no single-case replay; rerun the check")),
